@@ -6,8 +6,15 @@ translated from the Go source on every run (Generated/GoFuncs.lean), ARE the mod
   runtime.scopeContext.IsCalledByEntry  = the executing context's IsCalledByEntry (what rule conditions see)
   vm.VM.checkInvocationStackSize        = the limit test of VM.load / VM.call
   keys.PublicKey.sizeSerialized         = 33 for a compressed key (the PUSHDATA1 length of `sigContract`)
+  callflag.CallFlag.Has                 = Flags.has
+  transaction.ScopesFromByte            = validScopes (all 256 bytes)
+  runtime.getContractGroups             = getContractGroups (ReadStates first, missing contract is no error)
+  runtime.LoadScript                    = the flags of the `.runtimeLoadScript` step (range check, cur & ReadOnly & fs)
+  contract.callInternal                 = safeMask for Safe methods
+  Signer.DecodeBinary / WitnessRule.DecodeBinary = the scope-byte / action-byte tests and the read order of decodeSigner / decodeRule
 -/
 import NeoModel.Model.Witness.Arg
+import NeoModel.Proofs.WitnessFrames
 import NeoModel.Generated.GoFuncs
 open NeoModel
 namespace NeoModel.Witness.GoTie
@@ -70,5 +77,111 @@ theorem go_keySize_is_sigContract_push (key33 : Bytes) (h : key33.length = 33) :
     (sigContract key33).take 2 = [opPUSHDATA1, 0x21] ∧ (sigContract key33).length = 40 := by
   refine ⟨rfl, rfl, ?_⟩
   simp [sigContract, checkSigId, h]
+
+open Generated.GoFuncs
+
+theorem band_nat (a b : Nat) : band (a : Int) (b : Int) = ((a &&& b : Nat) : Int) := by simp [band]
+
+/-- **go_callFlagHas_eq_model.** `CallFlag.Has` translated from the Go source is the model's `Flags.has`. -/
+theorem go_callFlagHas_eq_model (f need : Nat) : c15CallFlagHas (need : Int) (f : Int) = Flags.has f need := by
+  unfold c15CallFlagHas Flags.has
+  rw [band_nat]
+  by_cases h : f &&& need = need
+  · simp [h]
+  · have : ¬ (((f &&& need : Nat) : Int) = (need : Int)) := by exact_mod_cast h
+    simp [h, this]
+
+set_option maxRecDepth 100000 in
+/-- **go_scopesFromByte_eq_validScopes.** `ScopesFromByte` translated from the Go source accepts exactly the
+bytes the model's `validScopes` accepts (no unknown bit, Global only alone), and returns the byte. -/
+theorem go_scopesFromByte_eq_validScopes (b : Fin 256) :
+    ((c15ScopesFromByte (b.val : Int)).2 = "ok" ↔ validScopes b.val = true) ∧
+    ((c15ScopesFromByte (b.val : Int)).2 = "ok" → (c15ScopesFromByte (b.val : Int)).1 = b.val) := by
+  revert b; decide
+
+/-- **go_getContractGroups_eq_model.** `getContractGroups` translated from the Go source: the ReadStates test
+comes first and is the only error; a missing contract is no error and has no groups; otherwise the
+manifest's groups — as in the model. -/
+theorem go_getContractGroups_eq_model (e : Env) (h : Hash) (cs groups : Int) :
+    let r := c15GetContractGroups e.cur.readStates cs (e.contracts h).isNone groups
+    (r.2 = "err" ↔ getContractGroups e h = .error .noReadStates) ∧
+    (r.2 = "ok" → (e.contracts h = none → r.1 = 0 ∧ getContractGroups e h = .ok []) ∧
+      (∀ gs, e.contracts h = some gs → r.1 = groups ∧ getContractGroups e h = .ok gs)) := by
+  unfold c15GetContractGroups getContractGroups
+  cases hrs : e.cur.readStates <;> cases hc : e.contracts h <;> simp
+
+/-- **go_runtimeLoadScript_flags_eq_model.** The flags `System.Runtime.LoadScript` hands to
+`LoadDynamicScript`, translated from the Go source (range check first, then `cur & ReadOnly & fs`), are those
+of the model's `.runtimeLoadScript` step. -/
+theorem go_runtimeLoadScript_flags_eq_model (cf fs : Nat) (hfs : fs < 256) (script args : Int) (bad : Bool) :
+    c15RuntimeLoadScript script (fs : Int) args bad (cf : Int) =
+      (if fs &&& fAll != fs then none else if bad then none else some [((cf &&& fReadOnly &&& fs : Nat) : Int)]) := by
+  unfold c15RuntimeLoadScript
+  have hw : ((wrapS 32 (fs : Int)) % 256) = (fs : Int) := by
+    unfold wrapS; omega
+  have e15 : band (fs : Int) 15 = ((fs &&& 15 : Nat) : Int) := by exact_mod_cast band_nat fs 15
+  have e5 : band (band (cf : Int) 5) (fs : Int) = ((cf &&& 5 &&& fs : Nat) : Int) := by
+    have : band (cf : Int) 5 = ((cf &&& 5 : Nat) : Int) := by exact_mod_cast band_nat cf 5
+    rw [this, band_nat]
+  simp only [hw, bandnot, e15, e5, fAll, fReadOnly]
+  have key : ((fs : Int) - ((fs &&& 15 : Nat) : Int) ≠ 0) ↔ (fs &&& 15 != fs) = true := by
+    constructor
+    · intro h; simp only [bne_iff_ne, ne_eq]; intro he; rw [he] at h; simp at h
+    · intro h; simp only [bne_iff_ne, ne_eq] at h
+      intro he; apply h; have : ((fs &&& 15 : Nat) : Int) = (fs : Int) := by omega
+      exact_mod_cast this
+  by_cases h1 : (fs &&& 15 != fs) = true
+  · simp [h1, key.mpr h1]
+  · have h1' : ¬ ((fs : Int) - ((fs &&& 15 : Nat) : Int) ≠ 0) := fun hh => h1 (key.mp hh)
+    cases bad <;> simp [h1, h1']
+
+set_option maxRecDepth 100000 in
+/-- **go_callInternal_safe_mask_eq_model.** For a Safe method `callInternal`, translated from the Go source,
+passes `f &^ (WriteStates|AllowNotify)` on — the model's `safeMask` (on flag bytes) —, and `f` itself for a
+method that is not Safe and is allowed. -/
+theorem go_callInternal_safe_mask_eq_model (f : Nat) (hf : f < 256) (hasReturn isDynamic : Bool)
+    (a1 : Int) (b1 b2 b3 : Bool) (a2 : Int) (b4 b5 : Bool) (a3 : Int) (b6 : Bool) (a4 : Int) :
+    c15CallInternal (f : Int) hasReturn isDynamic true a1 b1 b2 b3 a2 b4 b5 a3 b6 a4 = some [((safeMask true f : Nat) : Int)] := by
+  unfold c15CallInternal safeMask
+  have e10 : band (f : Int) 10 = ((f &&& 10 : Nat) : Int) := by exact_mod_cast band_nat f 10
+  simp only [if_true, bandnot, e10, fWriteStates, fAllowNotify]
+  have : ∀ f : Fin 256, ((f.val : Int) - ((f.val &&& 10 : Nat) : Int)) = ((f.val &&& (255 ^^^ (2 ||| 8)) : Nat) : Int) := by decide
+  have := this ⟨f, hf⟩
+  simp only at this
+  rw [this]
+
+
+set_option maxRecDepth 100000 in
+/-- **go_signerDecodeBinary_scope_eq_model.** `Signer.DecodeBinary` translated from the Go source: for every
+scope byte the reader's error is set exactly when the model's `validScopes` refuses the byte, and otherwise
+the lists are read in the order contracts, groups, rules, each exactly when its bit is set. -/
+theorem go_signerDecodeBinary_scope_eq_model (b : Fin 256) (old : Int) :
+    let r := c15SignerDecodeBinary old false (b.val : Int) true true
+    r.1 = b.val ∧ (r.2.1 = true ↔ validScopes b.val = false) ∧
+    (r.2.1 = false → r.2.2 = ["br.ReadBytes"] ++
+      (if hasScope b.val scCustomContracts then ["br.ReadArray"] else []) ++
+      (if hasScope b.val scCustomGroups then ["br.ReadArray"] else []) ++
+      (if hasScope b.val scRules then ["br.ReadArray"] else [])) := by
+  have : c15SignerDecodeBinary old false (b.val : Int) true true = c15SignerDecodeBinary 0 false (b.val : Int) true true := rfl
+  rw [this]
+  clear this
+  revert b; decide
+
+/-- **go_ruleDecodeBinary_action_eq_model.** `WitnessRule.DecodeBinary` translated from the Go source sets the
+reader's error (and does not decode a condition) exactly for an action byte other than Deny / Allow — the
+test of the model's `decodeRule`. -/
+theorem go_ruleDecodeBinary_action_eq_model (a : Fin 256) (oldA oldC cond : Int) :
+    let r := c15RuleDecodeBinary oldA false oldC (a.val : Int) true cond
+    r.1 = a.val ∧ (r.2.1 = true ↔ (a.val != 0 && a.val != actAllow) = true) ∧ (r.2.1 = false → r.2.2 = cond) := by
+  have h : ((a.val : Int) % 256) = (a.val : Int) := by have := a.isLt; omega
+  unfold c15RuleDecodeBinary
+  simp only [h, actAllow]
+  by_cases h0 : a.val = 0
+  · simp [h0]
+  · by_cases h1 : a.val = 1
+    · simp [h1]
+    · have e1 : ¬ ((a.val : Int) = 1) := by exact_mod_cast h1
+      simp [h0, h1, e1]
+
 
 end NeoModel.Witness.GoTie
